@@ -187,7 +187,9 @@ pub fn permute(app: &AppSpec) -> AppSpec {
     AppSpec { id: app.id, fangs: app.fangs.clone(), items }
 }
 
-const PARAM_VALUES: [&str; 12] = ["42", "abc", "users", "users2", "a.b", "x-y_z", "%41b", "caf%C3%A9", "0", "u", "%2Fx", "~t"];
+// param values: anything but '/' and the empty string; values that look like statics, end in '.', are longer than a
+// machine word, carry bytes that are special somewhere else ('.', ':', '?' excluded: it ends the path)
+const PARAM_VALUES: [&str; 24] = ["42", "abc", "users", "users2", "a.b", "x-y_z", "%41b", "caf%C3%A9", "0", "u", "%2Fx", "~t", "St.", "Acme-Inc.", "wait..", ".hidden", "v1.2.3", "a.", "12345678", "abcdefghi.", ":id", "a:b", "x.y.z-0123456789abcdef", "."];
 
 pub fn gen_requests(table: &appgen::Table, n: usize) -> Vec<Req> {
     let mut out = Vec::new();
